@@ -235,6 +235,39 @@ func runReaderCase(c *Check, cfg *configuration.Configuration, d ioDoc, sched []
 		entries = append(entries, entry{"CTEDecoder.Decode", func() (interface{}, error) { return decodeEvents(ce.NewCTEDecoder(cfg), nil, d.Doc) },
 			func(r io.Reader) (interface{}, error) { return decodeEvents(ce.NewCTEDecoder(cfg), r, nil) }})
 	}
+	// one decoder / unmarshaler instance used for two documents in a row: what the reader did at the end of
+	// the first (data together with EOF, a failure) must not reach the second
+	twice := func(mk func() ce.Decoder) entry {
+		return entry{"Decoder reused for a second document", func() (interface{}, error) {
+			dec := mk()
+			a, _ := decodeEvents(dec, nil, d.Doc)
+			b, err := decodeEvents(dec, nil, d.Doc)
+			return fmt.Sprint(a, " | ", b), err
+		}, func(r io.Reader) (interface{}, error) {
+			dec := mk()
+			a, _ := decodeEvents(dec, r, nil)
+			b, err := decodeEvents(dec, bytes.NewReader(d.Doc), nil)
+			return fmt.Sprint(a, " | ", b), err
+		}}
+	}
+	twiceU := func(mk func() ce.Unmarshaler) entry {
+		return entry{"Unmarshaler reused for a second document", func() (interface{}, error) {
+			u := mk()
+			a, _ := u.UnmarshalFromDocument(d.Doc, nil)
+			b, err := u.UnmarshalFromDocument(d.Doc, nil)
+			return []interface{}{a, b}, err
+		}, func(r io.Reader) (interface{}, error) {
+			u := mk()
+			a, _ := u.Unmarshal(r, nil)
+			b, err := u.Unmarshal(bytes.NewReader(d.Doc), nil)
+			return []interface{}{a, b}, err
+		}}
+	}
+	if d.Format == "cbe" {
+		entries = append(entries, twice(func() ce.Decoder { return ce.NewCBEDecoder(cfg) }), twiceU(func() ce.Unmarshaler { return ce.NewCBEUnmarshaler(cfg) }))
+	} else {
+		entries = append(entries, twice(func() ce.Decoder { return ce.NewCTEDecoder(cfg) }), twiceU(func() ce.Unmarshaler { return ce.NewCTEUnmarshaler(cfg) }))
+	}
 	for _, en := range entries {
 		key := en.name + "|" + hex.EncodeToString(d.Doc) + "|" + strings.Join(sched, ",")
 		c.Count(key, nontrivial)
